@@ -860,7 +860,7 @@ fn witness_pass<'tcx>(tcx: TyCtxt<'tcx>) -> String {
         }
         let inst = Instance::mono(tcx, d);
         let id = intern(inst, &mut insts, &mut work);
-        roots.push((name, id));
+        roots.push((plain_path(tcx, d), id));
     }
 
     let mut body_defs: Vec<DefId> = vec![];
